@@ -28,3 +28,12 @@ Theorem C20_refuted_at_pinned :
   exists x c, word_ok x /\ word_ok c /\ add_const cfg_pinned x c = UB ub_overflow.
 Proof. exact C20_refuted_at_pinned_proof. Qed.
 Print Assumptions C20_refuted_at_pinned.
+
+(* ---- the constants of generated code (needs the generator model) ---- *)
+From Theo Require Import Parser GenModel CompileStatements Proofs_Gen.
+
+Theorem C20_consts :
+  forall root r, gen true [] (Some root) = Ok r -> gr_ok r = true ->
+    consts_in_range (gr_prog r) = true /\ counts_ok (gr_prog r) = true.
+Proof. exact C20_consts_proof. Qed.
+Print Assumptions C20_consts.
